@@ -439,35 +439,38 @@ def ref_viable(rules, V, S, xs):
 # brute force (validation of the references on finitely ambiguous grammars)
 
 
-def brute_language(rules, V, S, alg, max_len, max_depth):
-    """Sum over all derivation trees of depth <= max_depth, strings <= max_len.
-    Exact iff every derivation of every string <= max_len has depth <=
-    max_depth (the caller chooses grammars where that holds)."""
+def brute_language(rules, V, S, alg, max_len, max_depth=60):
+    """Weights of all strings of length <= max_len as sums over derivation
+    trees, by enumerating trees of height 1, 2, ... over string-indexed tables
+    (no spans, no normal form) until the tables of all symbols stop changing.
+    Exact on grammars without cyclic symbols; RefDiverged otherwise."""
     by_head = {}
     for w, h, b in rules:
         by_head.setdefault(h, []).append((w, tuple(b)))
-
-    def trees(X, depth):
-        # dict: yield string -> weight, over derivations of height <= depth
-        if depth == 0:
-            return {}
-        out = {}
-        for w, b in by_head.get(X, ()):
-            parts = [((), w)]
-            for y in b:
-                if y in V:
-                    parts = [(s + (y,), v) for s, v in parts if len(s) + 1 <= max_len]
-                else:
-                    sub = trees(y, depth - 1)
-                    parts = [(s + s2, v * v2) for s, v in parts for s2, v2 in sub.items()
-                             if len(s) + len(s2) <= max_len]
-                if not parts:
-                    break
-            for s, v in parts:
-                out[s] = out[s] + v if s in out else v
-        return out
-
-    return trees(S, max_depth)
+    N = nonterminals(rules, V)
+    prev = {X: {} for X in N}  # height <= d
+    for _ in range(max_depth):
+        cur = {}
+        for X in N:
+            out = {}
+            for w, b in by_head.get(X, ()):
+                parts = [((), w)]
+                for y in b:
+                    if y in V:
+                        parts = [(s + (y,), v) for s, v in parts if len(s) + 1 <= max_len]
+                    else:
+                        sub = prev[y]
+                        parts = [(s + s2, v * v2) for s, v in parts for s2, v2 in sub.items()
+                                 if len(s) + len(s2) <= max_len]
+                    if not parts:
+                        break
+                for s_, v in parts:
+                    out[s_] = out[s_] + v if s_ in out else v
+            cur[X] = out
+        if cur == prev:
+            return cur.get(S, {})
+        prev = cur
+    raise RefDiverged("brute_language")
 
 
 def cyclic_symbols(rules, V, productive_only=True):
